@@ -643,7 +643,9 @@ def _tlc():
 
 
 def run_plan(ctx, prop, plan, aspects, reference, oracle_known=None, skip_load_divergent=None):
-    """plan: [(cfg, tlc_timeout, sample_every_k)].  Returns the coverage dict."""
+    """plan: [(cfg, tlc_timeout, sample_every_k)].  Returns the coverage dict.
+    The TLC runs (the families of the plan, the coverage run and the racy variant) are independent and run
+    concurrently; the replays follow."""
     from .common import build_wild, trim_samples
     build_wild()
     private_wild()
@@ -651,8 +653,14 @@ def run_plan(ctx, prop, plan, aspects, reference, oracle_known=None, skip_load_d
     states = trans = replayed = 0
     runs = []
     demo_pool = []
-    for cfg, to, k in plan:
-        r, recs = tlc_records(cfg, to)
+    w = max(2, 16 // (len(plan) + 2))
+    with ThreadPoolExecutor(max_workers=len(plan) + 2) as ex:
+        futs = [ex.submit(tlc_records, cfg, to, min(8, w)) for cfg, to, _k in plan]
+        fcov = ex.submit(coverage_run)
+        fracy = ex.submit(racy_must_fail)
+        tlc_results = [f.result() for f in futs]
+        cover, racy = fcov.result(), fracy.result()
+    for (cfg, to, k), (r, recs) in zip(plan, tlc_results):
         states += r.distinct
         trans += r.generated
         chosen = sample(recs, ctx.seed, k)
@@ -664,8 +672,8 @@ def run_plan(ctx, prop, plan, aspects, reference, oracle_known=None, skip_load_d
         runs.append({"cfg": cfg, **r.summary(), "configurations": len(recs),
                      **{kk: vv for kk, vv in st.items() if kk != "samples"}})
         cov["samples"] += st["samples"]
-    runs.append(coverage_run())
-    runs.append(racy_must_fail())
+    runs.append(cover)
+    runs.append(racy)
     cov["binding_demo"] = binding_demo(ctx, prop, demo_pool, aspects, reference)
     cov["states"] = states
     cov["transitions"] = trans
